@@ -48,6 +48,19 @@ def _hdr_compat(tag, rops: List[str], wops: List[str]) -> Tuple[str, str]:
     return R.UNDEC, f"reader {rops} vs writer {wops}"
 
 
+
+def _blind_reader(fn_node) -> Optional[ast.AST]:
+    """a store whose field name is computed (`setattr(self, <name>, ..)` with a non-constant name, `self.__dict__[..] = ..`): which
+    fields the reader fills is then not read off its statements"""
+    for n in ast.walk(fn_node):
+        if isinstance(n, ast.Call) and isinstance(n.func, ast.Name) and n.func.id == "setattr" and len(n.args) == 3 and \
+                isinstance(n.args[0], ast.Name) and n.args[0].id == "self" and not isinstance(n.args[1], ast.Constant):
+            return n
+        if isinstance(n, ast.Call) and isinstance(n.func, ast.Attribute) and n.func.attr == "__setattr__" and n.args and not isinstance(n.args[0], ast.Constant):
+            return n
+    return None
+
+
 def rule_r1(ctx) -> List[R.Inst]:
     """header tag table with inverse chains (shared with C02.R3)"""
     M = ctx.M
@@ -66,11 +79,27 @@ def rule_r1(ctx) -> List[R.Inst]:
                 for v in n.values:
                     if isinstance(v, ast.Constant) and str(v.value).startswith("#") and ":" in str(v.value):
                         odd_tags[str(v.value).split(":", 1)[0]] = el
+    # elements whose tag is itself computed (f"{tag}:{pairs};" over a table): what they write is not read off the element
+    def _has_tag_text(el):
+        return any((isinstance(n, ast.Constant) and isinstance(n.value, str) and n.value.startswith("#") and ":" in n.value) or
+                   (isinstance(n, ast.JoinedStr) and any(isinstance(v, ast.Constant) and str(v.value).startswith("#") and ":" in str(v.value) for v in n.values))
+                   for n in ast.walk(el))
+    blind = [el for el in odd if not _has_tag_text(el)]
     for tag in sorted(set(rt) | set(wt) | set(odd_tags)):
         key = f"tag:{tag}"
+        if tag not in wt and tag not in odd_tags and blind:
+            insts.append(R.undec(rid, key, file, getattr(blind[0], "lineno", rt[tag][3].lineno),
+                                 f"{tag} is not written by an element with a literal tag, but '{unparse(blind[0])[:60]}' writes tags that are computed: not decided"))
+            continue
         if tag not in wt and tag not in odd_tags:
             insts.append(R.viol(rid, key, file, rt[tag][3].lineno, f"{tag} is read but never written",
                                 construct=f"read-only tag {tag}"))
+            continue
+        if tag not in rt and _blind_reader(rfn.node) is not None:
+            node = wt[tag][2] if tag in wt else odd_tags[tag]
+            insts.append(R.undec(rid, key, file, _blind_reader(rfn.node).lineno,
+                                 f"{tag} has no reading statement of its own, but the reader stores fields under computed names "
+                                 f"('{unparse(_blind_reader(rfn.node))[:60]}'): not decided"))
             continue
         if tag not in rt:
             node = wt[tag][2] if tag in wt else odd_tags[tag]
@@ -157,6 +186,10 @@ def rule_r2(ctx) -> List[R.Inst]:
                 bad.append("".join(t[1] if t[0] == "lit" else "{…}" for t in toks))
         tag = sorted(tags)[0] if tags else unparse(el)[:30]
         key = f"line:{tag}"
+        if bad and isinstance(el, ast.Starred):
+            # several lines produced by one starred element (a comprehension over a table of tags): their text is not read here
+            insts.append(R.undec("C03.R2", key, file, el.lineno, f"the lines produced by '{unparse(el)[:60]}' are not read"))
+            continue
         if bad:
             insts.append(R.viol("C03.R2", key, file, el.lineno,
                                 f"for some value this element is emitted as {bad[0]!r}, which is not a '#TAG:value;' line "
